@@ -202,6 +202,8 @@ func (s *setupWorker) setup(ctx context.Context, m transport.Metadata) error {
 	}
 	L(ctx).Debug("session metadata created")
 	s.local.Create(session.ID(), session)
+	// the connect timeout no longer applies: from now on the keep-alive allowance does
+	session.ExtendDeadline()
 	worker := &connectionWorker{
 		decoder: decoder.New(),
 		manager: s.manager,
